@@ -1,5 +1,5 @@
 (* Lemmas about Model/ExtAct.v.  Never imported by Model/. *)
-From Coq Require Import List NArith Lia Bool.
+From Coq Require Import List NArith Arith PeanoNat Lia Bool.
 From Echo Require Import Base.FinMap Base.Order Base.Bytes Model.ExtAct.
 Import ListNotations.
 Open Scope N_scope.
@@ -100,4 +100,1279 @@ Section Proofs.
     replace (settle_eqb cand cand) with true by (symmetry; apply settle_eqb_eq; reflexivity).
     reflexivity.
   Qed.
+
+  (* ---------------------------------------------------------------- index lookups *)
+  Definition n_eq := ol_eq _ N_order.
+  Definition n_as := ol_antisym _ N_order.
+  Definition n_tr := ol_trans _ N_order.
+
+  Notation upsert := (upsert H D EH).
+  Notation plan_entry := (plan_entry H D EH).
+
+  Lemma get_upsert_same idx e : get (upsert idx e) (rq_id (e_request e)) = Some e.
+  Proof. unfold get, ExtAct.upsert, apply_mutation; cbn [ix_entries]. apply find_set_same. exact n_eq. Qed.
+
+  Lemma get_upsert_other idx e k : k <> rq_id (e_request e) -> get (upsert idx e) k = get idx k.
+  Proof. intros Hne. unfold get, ExtAct.upsert, apply_mutation; cbn [ix_entries]. apply find_set_other; [exact n_eq|exact Hne]. Qed.
+
+  Lemma get_mut_same idx e ups : get (apply_mutation idx e ups) (rq_id (e_request e)) = Some e.
+  Proof. unfold get, apply_mutation; cbn [ix_entries]. apply find_set_same. exact n_eq. Qed.
+
+  Lemma get_mut_other idx e ups k : k <> rq_id (e_request e) -> get (apply_mutation idx e ups) k = get idx k.
+  Proof. intros Hne. unfold get, apply_mutation; cbn [ix_entries]. apply find_set_other; [exact n_eq|exact Hne]. Qed.
+
+  Lemma upsert_sorted idx e : sorted N.compare (ix_entries idx) -> sorted N.compare (ix_entries (upsert idx e)).
+  Proof. intros Hs. unfold ExtAct.upsert, apply_mutation; cbn [ix_entries]. apply set_sorted; [exact n_eq|exact n_as|exact Hs]. Qed.
+
+  (* ---------------------------------------------------------------- what observe accepts *)
+  Definition entry_ok (k : N) (e : entry) : Prop :=
+    rq_id (e_request e) = k /\ validate_identity H (e_request e) = None /\
+    match e_claim e with
+    | None => e_claim_commit e = None /\ e_settlement e = None /\ e_settlement_commit e = None /\ e_posture e = PRequested
+    | Some c =>
+        validate_claim H (e_request e) c = None /\ (exists n, e_claim_commit e = Some n) /\
+        match e_settlement e with
+        | None => e_settlement_commit e = None /\ e_posture e = PClaimed
+        | Some s => validate_candidate H (e_request e) c s = None /\ lenN (st_bytes s) <= MAX_SETTLEMENT_BYTES /\
+                    (exists n, e_settlement_commit e = Some n) /\ e_posture e = PSettled (st_kind s)
+        end
+    end.
+
+  Definition ixok (idx : index) : Prop :=
+    sorted N.compare (ix_entries idx) /\ forall k e, get idx k = Some e -> entry_ok k e.
+
+  Definition entry_steps (o : option entry) : list lstep :=
+    match o with
+    | None => []
+    | Some e =>
+        SRequested :: match e_claim e with
+                      | None => []
+                      | Some _ => SClaimed :: match e_settlement e with None => [] | Some _ => [SSettled] end
+                      end
+    end.
+
+  (* every index entry is justified by committed records *)
+  Definition backed (l : list txrec) (idx : index) : Prop :=
+    forall k e, get idx k = Some e ->
+      has l (e_request_commit e) (BRequest (e_request e)) /\
+      (forall c, e_claim e = Some c -> exists n, e_claim_commit e = Some n /\ has l n (BClaim c)) /\
+      (forall s, e_settlement e = Some s -> exists n, e_settlement_commit e = Some n /\ has l n (BSettle s)).
+
+  (* every committed record is reflected in the index *)
+  Definition reflected (l : list txrec) (idx : index) : Prop :=
+    forall t, In t l ->
+      match tx_body t with
+      | BRequest r => exists e, get idx (rq_id r) = Some e /\ e_request e = r /\ e_request_commit e = tx_lsn t
+      | BClaim c => exists e, get idx (cl_request c) = Some e /\ e_claim e = Some c /\ e_claim_commit e = Some (tx_lsn t)
+      | BSettle s => exists e, get idx (st_request s) = Some e /\ e_settlement e = Some s /\ e_settlement_commit e = Some (tx_lsn t)
+      end.
+
+  Definition rel (l : list txrec) (idx : index) : Prop :=
+    forall k, steps_of k l = entry_steps (get idx k).
+
+  Definition P (l : list txrec) (idx : index) : Prop :=
+    ixok idx /\ rel l idx /\ backed l idx /\ reflected l idx.
+
+  Lemma steps_of_snoc k l t :
+    steps_of k (l ++ [t]) = steps_of k l ++ (if body_id (tx_body t) =? k then [body_step (tx_body t)] else []).
+  Proof.
+    unfold steps_of. rewrite filter_app, map_app. cbn [filter].
+    destruct (body_id (tx_body t) =? k); reflexivity.
+  Qed.
+
+  Lemma has_snoc l t c b : has l c b -> has (l ++ [t]) c b.
+  Proof. intros [x [Hi Hx]]. exists x. split; [apply in_or_app; left; exact Hi|exact Hx]. Qed.
+
+  Lemma has_last l t : has (l ++ [t]) (tx_lsn t) (tx_body t).
+  Proof. exists t. split; [apply in_or_app; right; left; reflexivity|split; reflexivity]. Qed.
+
+  Lemma P_empty : P [] empty_index.
+  Proof.
+    split; [|split; [|split]].
+    - split; [exact I|]. intros k e Hg. discriminate.
+    - intros k. reflexivity.
+    - intros k e Hg. discriminate.
+    - intros t [].
+  Qed.
+
+  (* ---------------------------------------------------------------- inversion of apply_body *)
+  Lemma apply_body_inv idx b c idx' :
+    apply_body idx b c = Ok idx' ->
+    match b with
+    | BRequest r =>
+        validate_identity H r = None /\ get idx (rq_id r) = None /\ idx' = upsert idx (mk_requested r c)
+    | BClaim cl =>
+        exists e, get idx (cl_request cl) = Some e /\ e_claim e = None /\
+                  validate_claim H (e_request e) cl = None /\ idx' = upsert idx (with_claim e cl (Some c))
+    | BSettle s =>
+        (MAX_SETTLEMENT_BYTES <? lenN (st_bytes s)) = false /\ (H32 H (st_bytes s) =? st_digest s) = true /\
+        exists e cl, get idx (st_request s) = Some e /\ e_claim e = Some cl /\
+                     validate_candidate H (e_request e) cl s = None /\ e_settlement e = None /\
+                     idx' = upsert idx (with_settlement e s (Some c))
+    end.
+  Proof.
+    destruct b as [r|cl|s]; cbn [ExtAct.apply_body].
+    - destruct (validate_identity H r) eqn:Ev; [discriminate|].
+      destruct (get idx (rq_id r)) eqn:Eg; [discriminate|].
+      intros E; inversion E; auto.
+    - destruct (get idx (cl_request cl)) as [e|] eqn:Eg; [|discriminate].
+      destruct (e_claim e) eqn:Ec; [discriminate|].
+      destruct (validate_claim H (e_request e) cl) eqn:Ev; [discriminate|].
+      intros E; inversion E. exists e. auto.
+    - destruct (MAX_SETTLEMENT_BYTES <? lenN (st_bytes s)) eqn:Em; [discriminate|].
+      destruct (H32 H (st_bytes s) =? st_digest s) eqn:Ed; cbn [negb]; [|discriminate].
+      destruct (get idx (st_request s)) as [e|] eqn:Eg; [|discriminate].
+      destruct (e_claim e) as [cl|] eqn:Ec; [|discriminate].
+      destruct (validate_candidate H (e_request e) cl s) eqn:Ev; [discriminate|].
+      destruct (e_settlement e) eqn:Es.
+      + destruct (e_settlement_commit e); [|discriminate].
+        destruct (settle_eqb s0 s && (n =? c)); discriminate.
+      + intros E; inversion E. split; [reflexivity|split; [reflexivity|]]. exists e, cl. auto.
+  Qed.
+
+  Lemma validate_claim_request r c : validate_claim H r c = None -> cl_request c = rq_id r.
+  Proof.
+    unfold validate_claim.
+    destruct (claim_eqb c (claim_for_request H r (cl_adapter c) (cl_ordinal c) (cl_lease c) (cl_policy c))) eqn:E;
+      cbn [negb]; [|discriminate].
+    intros _. apply claim_eqb_eq in E. rewrite E. reflexivity.
+  Qed.
+
+  Lemma validate_candidate_request r c s : validate_candidate H r c s = None -> st_request s = rq_id r.
+  Proof.
+    unfold validate_candidate.
+    destruct (st_request s =? rq_id r) eqn:E; cbn [negb orb]; [|discriminate].
+    intros _. apply N.eqb_eq in E. exact E.
+  Qed.
+
+  (* ---------------------------------------------------------------- P is preserved by a record *)
+  Definition extends (e e' : entry) : Prop :=
+    e_request e' = e_request e /\ e_request_commit e' = e_request_commit e /\
+    (forall c, e_claim e = Some c -> e_claim e' = Some c /\ e_claim_commit e' = e_claim_commit e) /\
+    (forall s, e_settlement e = Some s -> e_settlement e' = Some s /\ e_settlement_commit e' = e_settlement_commit e).
+
+  Definition entry_backed (l : list txrec) (e : entry) : Prop :=
+    has l (e_request_commit e) (BRequest (e_request e)) /\
+    (forall c, e_claim e = Some c -> exists n, e_claim_commit e = Some n /\ has l n (BClaim c)) /\
+    (forall s, e_settlement e = Some s -> exists n, e_settlement_commit e = Some n /\ has l n (BSettle s)).
+
+  Lemma entry_backed_snoc l t e : entry_backed l e -> entry_backed (l ++ [t]) e.
+  Proof.
+    intros [Hr [Hc Hs]]. split; [apply has_snoc; exact Hr|split].
+    - intros c Ec. destruct (Hc c Ec) as [n [En Hn]]. exists n. split; [exact En|apply has_snoc; exact Hn].
+    - intros s Es. destruct (Hs s Es) as [n [En Hn]]. exists n. split; [exact En|apply has_snoc; exact Hn].
+  Qed.
+
+  Lemma P_upsert l idx t e' :
+    P l idx ->
+    rq_id (e_request e') = body_id (tx_body t) ->
+    entry_ok (body_id (tx_body t)) e' ->
+    entry_steps (Some e') = entry_steps (get idx (body_id (tx_body t))) ++ [body_step (tx_body t)] ->
+    (forall e, get idx (body_id (tx_body t)) = Some e -> extends e e') ->
+    entry_backed (l ++ [t]) e' ->
+    match tx_body t with
+    | BRequest r => e_request e' = r /\ e_request_commit e' = tx_lsn t
+    | BClaim c => e_claim e' = Some c /\ e_claim_commit e' = Some (tx_lsn t)
+    | BSettle s => e_settlement e' = Some s /\ e_settlement_commit e' = Some (tx_lsn t)
+    end ->
+    P (l ++ [t]) (upsert idx e').
+  Proof.
+    intros [[Hsorted Hok] [Hrel [Hback Hrefl]]] Hid Hok' Hsteps Hext Hb' Hnew.
+    set (k0 := body_id (tx_body t)) in *.
+    split; [|split; [|split]].
+    - split; [apply upsert_sorted; exact Hsorted|].
+      intros k e Hg. destruct (N.eq_dec k k0) as [->|Hne].
+      + rewrite <- Hid, get_upsert_same in Hg. inversion Hg; subst e. exact Hok'.
+      + rewrite get_upsert_other in Hg by (rewrite Hid; exact Hne). apply Hok; exact Hg.
+    - intros k. rewrite steps_of_snoc. fold k0. destruct (N.eq_dec k k0) as [->|Hne].
+      + rewrite N.eqb_refl. rewrite <- Hid at 2. rewrite get_upsert_same. rewrite Hsteps, Hrel. reflexivity.
+      + replace (k0 =? k) with false by (symmetry; apply N.eqb_neq; auto).
+        rewrite app_nil_r, get_upsert_other by (rewrite Hid; exact Hne). apply Hrel.
+    - intros k e Hg. destruct (N.eq_dec k k0) as [->|Hne].
+      + rewrite <- Hid, get_upsert_same in Hg. inversion Hg; subst e. exact Hb'.
+      + rewrite get_upsert_other in Hg by (rewrite Hid; exact Hne).
+        apply (entry_backed_snoc l t e). apply (Hback k e Hg).
+    - intros t' Hin. apply in_app_or in Hin. destruct Hin as [Hin|[<-|[]]].
+      + specialize (Hrefl t' Hin).
+        destruct (tx_body t') as [r|c|s].
+        * destruct Hrefl as [e [Hg [Er Ec]]]. destruct (N.eq_dec (rq_id r) k0) as [E|Hne].
+          -- rewrite E in Hg. destruct (Hext e Hg) as [X1 [X2 _]].
+             exists e'. rewrite E, <- Hid, get_upsert_same. split; [reflexivity|]. split; congruence.
+          -- exists e. rewrite get_upsert_other by (rewrite Hid; exact Hne). auto.
+        * destruct Hrefl as [e [Hg [Er Ec]]]. destruct (N.eq_dec (cl_request c) k0) as [E|Hne].
+          -- rewrite E in Hg. destruct (Hext e Hg) as [_ [_ [X _]]]. destruct (X c Er) as [Y1 Y2].
+             exists e'. rewrite E, <- Hid, get_upsert_same. split; [reflexivity|]. split; congruence.
+          -- exists e. rewrite get_upsert_other by (rewrite Hid; exact Hne). auto.
+        * destruct Hrefl as [e [Hg [Er Ec]]]. destruct (N.eq_dec (st_request s) k0) as [E|Hne].
+          -- rewrite E in Hg. destruct (Hext e Hg) as [_ [_ [_ X]]]. destruct (X s Er) as [Y1 Y2].
+             exists e'. rewrite E, <- Hid, get_upsert_same. split; [reflexivity|]. split; congruence.
+          -- exists e. rewrite get_upsert_other by (rewrite Hid; exact Hne). auto.
+      + unfold k0 in *. destruct (tx_body t) as [r|c|s]; cbn [body_id] in *;
+          exists e'; rewrite <- Hid, get_upsert_same; destruct Hnew; auto.
+  Qed.
+
+  Lemma apply_body_P l idx t idx' :
+    P l idx -> apply_body idx (tx_body t) (tx_lsn t) = Ok idx' -> P (l ++ [t]) idx'.
+  Proof.
+    intros HP Ha. pose proof HP as [[Hsorted Hok] [Hrel [Hback Hrefl]]].
+    apply apply_body_inv in Ha. pose proof (has_last l t) as Hlast.
+    destruct (tx_body t) as [r|cl|s] eqn:Eb.
+    - destruct Ha as [Hv [Hg ->]].
+      apply P_upsert; rewrite ?Eb; cbn [body_id body_step mk_requested e_request e_claim e_settlement
+        e_request_commit e_claim_commit e_settlement_commit e_posture]; auto.
+      + repeat split; auto.
+      + rewrite Hg. reflexivity.
+      + intros e He. rewrite Hg in He. discriminate.
+      + split; [exact Hlast|split; intros x Hx; discriminate].
+    - destruct Ha as [e [Hg [Hc [Hv ->]]]].
+      destruct (Hok _ _ Hg) as [Hid [Hvi Hrest]]. rewrite Hc in Hrest. destruct Hrest as [Hcc [Hs [Hsc Hp]]].
+      destruct (Hback _ _ Hg) as [Hbr _].
+      apply P_upsert; rewrite ?Eb; cbn [body_id body_step with_claim e_request e_claim e_settlement
+        e_request_commit e_claim_commit e_settlement_commit e_posture]; auto.
+      + split; [exact Hid|]. split; [exact Hvi|]. cbn [with_claim e_request e_claim e_settlement
+          e_request_commit e_claim_commit e_settlement_commit e_posture]. rewrite Hs.
+        split; [exact Hv|]. split; [eexists; reflexivity|]. split; [exact Hsc|reflexivity].
+      + rewrite Hg. cbn [entry_steps with_claim e_claim e_settlement]. rewrite Hc, Hs. reflexivity.
+      + intros e0 He0. rewrite Hg in He0. inversion He0; subst e0.
+        split; [reflexivity|]. split; [reflexivity|]. split; intros x Hx; congruence.
+      + split; [apply has_snoc; exact Hbr|]. split.
+        * intros x Hx. cbn in Hx. inversion Hx; subst x. eexists; split; [reflexivity|exact Hlast].
+        * intros x Hx. cbn in Hx. congruence.
+    - destruct Ha as [Hmax [Hdig [e [cl [Hg [Hc [Hv [Hs ->]]]]]]]].
+      destruct (Hok _ _ Hg) as [Hid [Hvi Hrest]]. rewrite Hc, Hs in Hrest.
+      destruct Hrest as [Hvc [[n Hcc] [Hsc Hp]]].
+      destruct (Hback _ _ Hg) as [Hbr [Hbc _]].
+      pose proof (validate_candidate_request _ _ _ Hv) as Hreq.
+      apply P_upsert; rewrite ?Eb; cbn [body_id body_step with_settlement e_request e_claim e_settlement
+        e_request_commit e_claim_commit e_settlement_commit e_posture]; auto.
+      + split; [exact Hid|]. split; [exact Hvi|]. cbn [with_settlement e_request e_claim e_settlement
+          e_request_commit e_claim_commit e_settlement_commit e_posture]. rewrite Hc.
+        split; [exact Hvc|]. split; [eexists; exact Hcc|]. split; [exact Hv|].
+        split; [apply N.ltb_ge in Hmax; exact Hmax|]. split; [eexists; reflexivity|reflexivity].
+      + rewrite Hg. cbn [entry_steps with_settlement e_claim e_settlement]. rewrite Hc, Hs. reflexivity.
+      + intros e0 He0. rewrite Hg in He0. inversion He0; subst e0.
+        split; [reflexivity|]. split; [reflexivity|]. split; intros x Hx; [|congruence].
+        split; [exact Hx|reflexivity].
+      + split; [apply has_snoc; exact Hbr|]. split.
+        * intros x Hx. cbn in Hx. destruct (Hbc x Hx) as [m [Hm Hh]]. exists m. split; [exact Hm|apply has_snoc; exact Hh].
+        * intros x Hx. cbn in Hx. inversion Hx; subst x. eexists; split; [reflexivity|exact Hlast].
+  Qed.
+
+  Lemma apply_record_P l idx t idx' : P l idx -> apply_record idx t = Ok idx' -> P (l ++ [t]) idx'.
+  Proof.
+    unfold ExtAct.apply_record. intros HP.
+    destruct (apply_body idx (tx_body t) (tx_lsn t)) as [i|] eqn:Ea; [|discriminate].
+    destruct ((tx_before t =? root_digest EH idx) && (tx_after t =? root_digest EH i)); [|discriminate].
+    intros E; inversion E; subst. eapply apply_body_P; eauto.
+  Qed.
+
+  Lemma observe_from_P l2 : forall l1 idx idx', P l1 idx -> observe_from idx l2 = Ok idx' -> P (l1 ++ l2) idx'.
+  Proof.
+    induction l2 as [|t l2 IH]; intros l1 idx idx' HP Ho.
+    - cbn in Ho. inversion Ho; subst. rewrite app_nil_r. exact HP.
+    - cbn [ExtAct.observe_from] in Ho. destruct (apply_record idx t) as [i|] eqn:Ea; [|discriminate].
+      replace (l1 ++ t :: l2) with ((l1 ++ [t]) ++ l2) by (rewrite <- app_assoc; reflexivity).
+      eapply IH; [|exact Ho]. eapply apply_record_P; eauto.
+  Qed.
+
+  Lemma observe_P l idx : observe l = Ok idx -> P l idx.
+  Proof. intros Ho. apply (observe_from_P l [] empty_index idx P_empty Ho). Qed.
+
+  Lemma observe_from_app idx l1 l2 :
+    observe_from idx (l1 ++ l2) =
+    match observe_from idx l1 with Ok i => observe_from i l2 | Err e => Err e end.
+  Proof.
+    revert idx; induction l1 as [|t l1 IH]; intros idx; cbn [app ExtAct.observe_from]; [reflexivity|].
+    destruct (apply_record idx t); [apply IH|reflexivity].
+  Qed.
+
+  (* ---------------------------------------------------------------- node map basics *)
+  Lemma bool_order : OrderLaws bool_cmp.
+  Proof.
+    split.
+    - intros [|] [|]; cbn; split; intros E; try reflexivity; try discriminate.
+    - intros [|] [|]; reflexivity.
+    - intros [|] [|] [|]; cbn; intros; try discriminate; reflexivity.
+  Qed.
+  Lemma path_order : OrderLaws path_cmp.
+  Proof. apply list_order, bool_order. Qed.
+  Definition p_eq := ol_eq _ path_order.
+  Definition p_as := ol_antisym _ path_order.
+  Definition p_tr := ol_trans _ path_order.
+
+  Notation plan_path := (plan_path H).
+
+  Lemma plan_path_last nodes rest : forall ehs rp leaf,
+    exists ups0, snd (plan_path nodes ehs rp rest leaf) = ups0 ++ [(rp, fst (plan_path nodes ehs rp rest leaf))].
+  Proof.
+    induction rest as [|b rest IH]; intros ehs rp leaf.
+    - exists []. reflexivity.
+    - cbn [ExtAct.plan_path].
+      destruct (plan_path nodes (tl ehs) (b :: rp) rest leaf) as [child ups] eqn:E.
+      cbn [fst snd]. exists ups. reflexivity.
+  Qed.
+
+  Lemma apply_updates_snoc nodes ups k v :
+    apply_updates nodes (ups ++ [(k, v)]) = set path_cmp k v (apply_updates nodes ups).
+  Proof. unfold apply_updates. rewrite fold_left_app. reflexivity. Qed.
+
+  Lemma root_after_plan idx e e' :
+    root_digest EH (apply_mutation idx e (snd (plan_entry idx e'))) = fst (plan_entry idx e').
+  Proof.
+    unfold root_digest, apply_mutation, ExtAct.plan_entry; cbn [ix_nodes].
+    destruct (plan_path_last (ix_nodes idx) (bits D (rq_id (e_request e'))) EH [] (leaf_hash H e')) as [ups0 E].
+    rewrite E, apply_updates_snoc. unfold node_val. rewrite find_set_same by exact p_eq. reflexivity.
+  Qed.
+
+  Lemma plan_entry_irrel idx e1 e2 :
+    e_request e1 = e_request e2 -> e_claim e1 = e_claim e2 -> e_settlement e1 = e_settlement e2 ->
+    plan_entry idx e1 = plan_entry idx e2.
+  Proof.
+    intros E1 E2 E3. unfold ExtAct.plan_entry, leaf_hash, leaf_preimage. rewrite E1, E2, E3. reflexivity.
+  Qed.
+
+  Lemma upsert_as_mutation idx e e' :
+    e_request e = e_request e' -> e_claim e = e_claim e' -> e_settlement e = e_settlement e' ->
+    upsert idx e = apply_mutation idx e (snd (plan_entry idx e')).
+  Proof. intros E1 E2 E3. unfold ExtAct.upsert. rewrite (plan_entry_irrel idx e e'); auto. Qed.
+
+  (* ---------------------------------------------------------------- shape of the transitions *)
+  Notation commit_entry := (commit_entry H D EH).
+  Notation record_request := (record_request H D EH).
+  Notation claim_action := (claim_action H D EH).
+  Notation admit_settlement := (admit_settlement H D EH).
+  Notation root := (root_digest EH).
+
+  Definition committed (s : sys) : list txrec := sto_committed (sy_store s).
+
+  Definition new_tx (s : sys) (next : entry) (b : body) : txrec :=
+    {| tx_lsn := co_next_lsn (sy_coord s); tx_body := b; tx_before := root (co_index (sy_coord s));
+       tx_after := fst (plan_entry (co_index (sy_coord s)) next) |}.
+
+  Lemma commit_entry_cases s next b f finish grant :
+    commit_entry s next b f finish grant =
+    let co := sy_coord s in
+    let sto := sy_store s in
+    let t := new_tx s next b in
+    match f with
+    | NoFault =>
+        ({| sy_store := {| sto_base := sto_base sto; sto_committed := sto_committed sto ++ [t]; sto_tail := sto_tail sto |};
+            sy_coord := {| co_index := apply_mutation (co_index co) (finish next (co_next_lsn co)) (snd (plan_entry (co_index co) next));
+                           co_next_lsn := co_next_lsn co + 1; co_ready := true |} |}, grant (co_next_lsn co))
+    | FailAppend => ({| sy_store := sto; sy_coord := unready co |}, OutErr WalStoreErr)
+    | FailFlush =>
+        ({| sy_store := {| sto_base := sto_base sto; sto_committed := sto_committed sto; sto_tail := sto_tail sto ++ [t] |};
+            sy_coord := unready co |}, OutErr WalStoreErr)
+    | FailAfterSync =>
+        ({| sy_store := {| sto_base := sto_base sto; sto_committed := sto_committed sto ++ [t]; sto_tail := sto_tail sto |};
+            sy_coord := unready co |}, OutErr WalStoreErr)
+    end.
+  Proof.
+    unfold ExtAct.commit_entry, new_tx.
+    destruct (plan_entry (co_index (sy_coord s)) next) as [nr ups].
+    destruct f; reflexivity.
+  Qed.
+
+  Definition is_err (o : out) : Prop := exists e, o = OutErr e.
+
+  Lemma record_request_cases s r f :
+    (exists e, record_request s r f = (s, OutErr e)) \/
+    (co_ready (sy_coord s) = true /\ get (co_index (sy_coord s)) (rq_id r) = None /\ validate_identity H r = None /\
+     record_request s r f = commit_entry s (mk_requested r 0) (BRequest r) f with_request_commit (fun c => OutToken r c)).
+  Proof.
+    unfold ExtAct.record_request.
+    destruct (co_ready (sy_coord s)); cbn [negb]; [|left; eexists; reflexivity].
+    destruct (get (co_index (sy_coord s)) (rq_id r)); [left; eexists; reflexivity|].
+    destruct (validate_identity H r); [left; eexists; reflexivity|].
+    right. auto.
+  Qed.
+
+  Lemma claim_action_cases s r a basis ordinal lease f :
+    (exists e, claim_action s r a basis ordinal lease f = (s, OutErr e)) \/
+    (exists recovered,
+       co_ready (sy_coord s) = true /\ validate_identity H r = None /\
+       get (co_index (sy_coord s)) (rq_id r) = Some recovered /\ e_request recovered = r /\ e_claim recovered = None /\
+       (rq_max_attempts r <=? ordinal) = false /\ (lease =? 0) = false /\ (au_policy a =? 0) = false /\
+       let c := claim_for_request H r (au_adapter a) ordinal lease (au_policy a) in
+       claim_action s r a basis ordinal lease f =
+       commit_entry s (with_claim recovered c None) (BClaim c) f
+                    (fun e commit => with_claim e c (Some commit)) (fun commit => OutGrant r c commit)).
+  Proof.
+    unfold ExtAct.claim_action.
+    destruct (co_ready (sy_coord s)); cbn [negb]; [|left; eexists; reflexivity].
+    destruct (validate_identity H r); [left; eexists; reflexivity|].
+    destruct (get (co_index (sy_coord s)) (rq_id r)) as [rec|]; [|left; eexists; reflexivity].
+    destruct (request_eqb (e_request rec) r) eqn:Er; cbn [negb]; [|left; eexists; reflexivity].
+    destruct (e_claim rec) eqn:Ec; [left; eexists; reflexivity|].
+    destruct (negb (au_op a =? rq_op r) || negb (au_scope a =? rq_scope r)); [left; eexists; reflexivity|].
+    destruct (au_policy a =? 0) eqn:Ep.
+    { rewrite orb_true_r. left; eexists; reflexivity. }
+    rewrite orb_false_r.
+    destruct (negb (au_request a =? rq_id r) || negb (au_basis a =? rq_basis r)); [left; eexists; reflexivity|].
+    destruct (negb (basis =? rq_basis r)); [left; eexists; reflexivity|].
+    destruct (rq_max_attempts r <=? ordinal) eqn:Eo; [left; eexists; reflexivity|].
+    destruct (lease =? 0) eqn:El; [left; eexists; reflexivity|].
+    right. exists rec. apply request_eqb_eq in Er. repeat split; auto.
+  Qed.
+
+  Lemma admit_settlement_cases s gr gc gcommit cand f :
+    (exists e, admit_settlement s gr gc gcommit cand f = (s, OutErr e)) \/
+    (exists recovered,
+       co_ready (sy_coord s) = true /\
+       get (co_index (sy_coord s)) (rq_id gr) = Some recovered /\ e_request recovered = gr /\
+       e_claim recovered = Some gc /\ e_claim_commit recovered = Some gcommit /\ e_settlement recovered = None /\
+       validate_candidate H gr gc cand = None /\
+       admit_settlement s gr gc gcommit cand f =
+       commit_entry s (with_settlement recovered cand None) (BSettle cand) f
+                    (fun e commit => with_settlement e cand (Some commit)) (fun commit => OutAdmitted cand commit)).
+  Proof.
+    unfold ExtAct.admit_settlement.
+    destruct (co_ready (sy_coord s)); cbn [negb]; [|left; eexists; reflexivity].
+    destruct (get (co_index (sy_coord s)) (rq_id gr)) as [rec|]; [|left; eexists; reflexivity].
+    destruct (e_claim rec) as [rc|] eqn:Ec; [|left; eexists; reflexivity].
+    destruct (request_eqb (e_request rec) gr) eqn:Er; cbn [negb orb]; [|left; eexists; reflexivity].
+    destruct (claim_eqb rc gc) eqn:Ecl; cbn [negb orb]; [|left; eexists; reflexivity].
+    destruct (opt_N_eqb (e_claim_commit rec) (Some gcommit)) eqn:Eco; cbn [negb]; [|left; eexists; reflexivity].
+    destruct (e_settlement rec) eqn:Es; [left; eexists; reflexivity|].
+    destruct (validate_candidate H gr gc cand) eqn:Ev; [left; eexists; reflexivity|].
+    right. exists rec. apply request_eqb_eq in Er. apply claim_eqb_eq in Ecl. apply opt_N_eqb_eq in Eco.
+    subst. repeat split; auto.
+  Qed.
+
+  (* ---------------------------------------------------------------- system invariant *)
+  Definition sync (s : sys) (idxC : index) : Prop :=
+    (co_ready (sy_coord s) = true ->
+       sto_tail (sy_store s) = [] /\ co_index (sy_coord s) = idxC /\
+       co_next_lsn (sy_coord s) = continuation (sto_base (sy_store s)) (committed s)) /\
+    (co_ready (sy_coord s) = false ->
+       co_index (sy_coord s) = idxC \/
+       exists l t, committed s = l ++ [t] /\ observe l = Ok (co_index (sy_coord s))).
+
+  Definition Inv (s : sys) : Prop := exists idxC, observe (committed s) = Ok idxC /\ sync s idxC.
+
+  Lemma continuation_snoc base l t : continuation base (l ++ [t]) = tx_lsn t + 1.
+  Proof. unfold continuation. rewrite rev_app_distr. reflexivity. Qed.
+
+  Lemma Inv_init base : Inv (init_sys base).
+  Proof.
+    exists empty_index. split; [reflexivity|]. split; intros Hr; cbn in *; [auto|discriminate].
+  Qed.
+
+  Lemma commit_entry_Inv s next b f finish grant :
+    Inv s -> co_ready (sy_coord s) = true ->
+    apply_body (co_index (sy_coord s)) b (co_next_lsn (sy_coord s)) =
+      Ok (upsert (co_index (sy_coord s)) (finish next (co_next_lsn (sy_coord s)))) ->
+    e_request (finish next (co_next_lsn (sy_coord s))) = e_request next ->
+    e_claim (finish next (co_next_lsn (sy_coord s))) = e_claim next ->
+    e_settlement (finish next (co_next_lsn (sy_coord s))) = e_settlement next ->
+    Inv (fst (commit_entry s next b f finish grant)).
+  Proof.
+    intros [idxC [Hobs [Hsy1 _]]] Hr Ha E1 E2 E3. destruct (Hsy1 Hr) as [Htail [Hidx Hlsn]].
+    rewrite commit_entry_cases. cbv zeta.
+    set (t := new_tx s next b).
+    set (e' := finish next (co_next_lsn (sy_coord s))) in *.
+    assert (Hrec : apply_record (co_index (sy_coord s)) t = Ok (upsert (co_index (sy_coord s)) e')).
+    { unfold ExtAct.apply_record. cbn [t new_tx tx_body tx_lsn tx_before tx_after]. rewrite Ha.
+      rewrite N.eqb_refl. rewrite (upsert_as_mutation _ e' next) by assumption.
+      rewrite root_after_plan, N.eqb_refl. reflexivity. }
+    assert (Hobs' : observe (committed s ++ [t]) = Ok (upsert (co_index (sy_coord s)) e')).
+    { unfold ExtAct.observe. rewrite observe_from_app. fold (observe (committed s)). rewrite Hobs, <- Hidx.
+      cbn [ExtAct.observe_from]. rewrite Hrec. reflexivity. }
+    destruct f; cbn [fst].
+    - exists (upsert (co_index (sy_coord s)) e'). split; [exact Hobs'|].
+      split; cbn [sy_coord sy_store co_ready co_index co_next_lsn sto_tail sto_base committed sto_committed]; intros X; [|discriminate].
+      split; [exact Htail|]. split; [symmetry; apply upsert_as_mutation; assumption|].
+      fold (committed s). rewrite continuation_snoc. reflexivity.
+    - exists idxC. split; [exact Hobs|].
+      split; cbn [sy_coord sy_store unready co_ready co_index]; intros X; [discriminate|left; exact Hidx].
+    - exists idxC. split; [exact Hobs|].
+      split; cbn [sy_coord sy_store unready co_ready co_index]; intros X; [discriminate|left; exact Hidx].
+    - exists (upsert (co_index (sy_coord s)) e'). split; [exact Hobs'|].
+      split; cbn [sy_coord sy_store unready co_ready co_index committed sto_committed]; intros X; [discriminate|].
+      right. exists (committed s), t. split; [reflexivity|]. rewrite Hidx. exact Hobs.
+  Qed.
+
+  (* ---------------------------------------------------------------- validation facts *)
+  Lemma validate_identity_facts r :
+    validate_identity H r = None ->
+    rq_id r = expected_request_id H r /\ rq_max_bytes r <> 0 /\ rq_max_attempts r = 1 /\
+    rq_max_bytes r <= MAX_SETTLEMENT_BYTES.
+  Proof.
+    unfold validate_identity, budget_check.
+    destruct (rq_id r =? expected_request_id H r) eqn:E1; cbn [negb]; [|discriminate].
+    destruct (rq_max_bytes r =? 0) eqn:E2; cbn [orb]; [discriminate|].
+    destruct (rq_max_attempts r =? 0) eqn:E3; [discriminate|].
+    destruct (rq_max_attempts r =? 1) eqn:E4; cbn [negb]; [|discriminate].
+    destruct (MAX_SETTLEMENT_BYTES <? rq_max_bytes r) eqn:E5; [discriminate|].
+    intros _. apply N.eqb_eq in E1, E4. apply N.eqb_neq in E2. apply N.ltb_ge in E5. auto.
+  Qed.
+
+  Lemma validate_candidate_facts r c s :
+    validate_candidate H r c s = None ->
+    st_request s = rq_id r /\ st_attempt s = cl_attempt c /\ st_adapter s = cl_adapter c /\
+    st_basis s = rq_basis r /\ st_schema s = rq_set_schema r /\ st_schema_ev s <> 0 /\ st_ext_ev s <> 0 /\
+    lenN (st_bytes s) <= rq_max_bytes r /\ H32 H (st_bytes s) = st_digest s.
+  Proof.
+    unfold validate_candidate.
+    destruct (st_request s =? rq_id r) eqn:E1; cbn [negb orb]; [|discriminate].
+    destruct (st_attempt s =? cl_attempt c) eqn:E2; cbn [negb orb]; [|discriminate].
+    destruct (st_adapter s =? cl_adapter c) eqn:E3; cbn [negb orb]; [|discriminate].
+    destruct (st_basis s =? rq_basis r) eqn:E4; cbn [negb orb]; [|discriminate].
+    destruct (st_schema s =? rq_set_schema r) eqn:E5; cbn [negb]; [|discriminate].
+    destruct (st_schema_ev s =? 0) eqn:E6; [discriminate|].
+    destruct (st_ext_ev s =? 0) eqn:E7; [discriminate|].
+    destruct (rq_max_bytes r <? lenN (st_bytes s)) eqn:E8; [discriminate|].
+    destruct (H32 H (st_bytes s) =? st_digest s) eqn:E9; cbn [negb]; [|discriminate].
+    intros _. apply N.eqb_eq in E1, E2, E3, E4, E5, E9. apply N.eqb_neq in E6, E7. apply N.ltb_ge in E8.
+    repeat split; auto.
+  Qed.
+
+  Lemma validate_claim_for_request r adapter ordinal lease policy :
+    (rq_max_attempts r <=? ordinal) = false -> (lease =? 0) = false -> (policy =? 0) = false ->
+    validate_claim H r (claim_for_request H r adapter ordinal lease policy) = None.
+  Proof.
+    intros E1 E2 E3. unfold validate_claim.
+    cbn [claim_for_request cl_adapter cl_ordinal cl_lease cl_policy].
+    replace (claim_eqb _ _) with true by (symmetry; apply claim_eqb_eq; reflexivity).
+    cbn [negb]. rewrite E1, E2, E3. reflexivity.
+  Qed.
+
+  Lemma validate_claim_facts r c :
+    validate_claim H r c = None ->
+    c = claim_for_request H r (cl_adapter c) (cl_ordinal c) (cl_lease c) (cl_policy c) /\
+    cl_ordinal c < rq_max_attempts r /\ cl_lease c <> 0 /\ cl_policy c <> 0.
+  Proof.
+    unfold validate_claim.
+    destruct (claim_eqb c _) eqn:E0; cbn [negb]; [|discriminate].
+    destruct (rq_max_attempts r <=? cl_ordinal c) eqn:E1; [discriminate|].
+    destruct (cl_lease c =? 0) eqn:E2; [discriminate|].
+    destruct (cl_policy c =? 0) eqn:E3; [discriminate|].
+    intros _. apply claim_eqb_eq in E0. apply N.leb_gt in E1. apply N.eqb_neq in E2, E3. auto.
+  Qed.
+
+  (* ---------------------------------------------------------------- every step preserves Inv *)
+  Lemma Inv_ixok s : Inv s -> co_ready (sy_coord s) = true -> P (committed s) (co_index (sy_coord s)).
+  Proof.
+    intros [idxC [Hobs [Hs _]]] Hr. destruct (Hs Hr) as [_ [-> _]]. apply observe_P; exact Hobs.
+  Qed.
+
+  Lemma step_Inv s o : Inv s -> Inv (fst (step s o)).
+  Proof.
+    intros HI. destruct o as [r f|r a basis ordinal lease f|gr gc gcommit cand f|cand|id|id|id| |]; cbn [ExtAct.step fst]; auto.
+    - destruct (record_request_cases s r f) as [[e ->]|[Hr [Hg [Hv ->]]]]; [exact HI|].
+      apply commit_entry_Inv; auto.
+      cbn [ExtAct.apply_body]. rewrite Hv, Hg. reflexivity.
+    - destruct (claim_action_cases s r a basis ordinal lease f) as [[e ->]|[rec [Hr [Hv [Hg [Her [Hc [Ho [Hl [Hp Heq]]]]]]]]]];
+        [exact HI|].
+      cbv zeta in Heq. rewrite Heq. apply commit_entry_Inv; auto.
+      cbn [ExtAct.apply_body claim_for_request cl_request]. rewrite Hg, Hc, Her.
+      rewrite validate_claim_for_request by assumption. reflexivity.
+    - destruct (admit_settlement_cases s gr gc gcommit cand f) as [[e ->]|[rec [Hr [Hg [Her [Hc [Hcc [Hs [Hv ->]]]]]]]]];
+        [exact HI|].
+      apply commit_entry_Inv; auto.
+      destruct (Inv_ixok s HI Hr) as [[_ Hok] _]. destruct (Hok _ _ Hg) as [_ [Hvi _]]. rewrite Her in Hvi.
+      destruct (validate_identity_facts _ Hvi) as [_ [_ [_ Hmax]]].
+      destruct (validate_candidate_facts _ _ _ Hv) as [Hq [_ [_ [_ [_ [_ [_ [Hlen Hdig]]]]]]]].
+      cbn [ExtAct.apply_body].
+      replace (MAX_SETTLEMENT_BYTES <? lenN (st_bytes cand)) with false by (symmetry; apply N.ltb_ge; lia).
+      rewrite Hdig, N.eqb_refl. cbn [negb]. rewrite Hq, Hg, Hc, Her, Hv, Hs. reflexivity.
+    - destruct (recover (sy_store s)) as [co|e] eqn:Er; cbn [fst].
+      + unfold ExtAct.recover in Er. destruct (sto_tail (sy_store s)) eqn:Et; [|discriminate].
+        destruct (ExtAct.observe H D EH (sto_committed (sy_store s))) as [idx|] eqn:Eo; [|discriminate].
+        inversion Er; subst co. exists idx. split; [exact Eo|].
+        split; cbn [sy_coord sy_store co_ready co_index co_next_lsn]; intros X; [auto|discriminate].
+      + destruct HI as [idxC [Hobs [H1 H2]]]. exists idxC. split; [exact Hobs|].
+        split; cbn [sy_coord sy_store unready co_ready co_index]; intros X; [discriminate|].
+        destruct (co_ready (sy_coord s)) eqn:Er'.
+        * left. apply H1; reflexivity.
+        * apply H2; reflexivity.
+    - destruct HI as [idxC [Hobs [H1 H2]]]. exists idxC. split; [exact Hobs|].
+      split; cbn [sy_coord sy_store truncate sto_tail sto_base committed sto_committed]; intros X.
+      + destruct (H1 X) as [_ [A B]]. auto.
+      + apply H2; exact X.
+  Qed.
+
+  (* ---------------------------------------------------------------- runs *)
+  Notation run_from := (run_from H D EH).
+  Notation run := (run H D EH).
+  Notation state_after := (state_after H D EH).
+  Notation trace_of := (trace_of H D EH).
+
+  Lemma run_from_cons s o ops :
+    run_from s (o :: ops) =
+    (fst (run_from (fst (step s o)) ops), (o, snd (step s o)) :: snd (run_from (fst (step s o)) ops)).
+  Proof.
+    cbn [ExtAct.run_from]. destruct (step s o) as [s' r]. cbn [fst snd].
+    destruct (run_from s' ops) as [s'' tr]. reflexivity.
+  Qed.
+
+  Lemma run_from_Inv ops : forall s, Inv s -> Inv (fst (run_from s ops)).
+  Proof.
+    induction ops as [|o ops IH]; intros s HI; [exact HI|].
+    rewrite run_from_cons. cbn [fst]. apply IH, step_Inv, HI.
+  Qed.
+
+  Lemma state_after_Inv ops : Inv (state_after ops).
+  Proof. apply run_from_Inv, Inv_init. Qed.
+
+  Lemma Inv_recover s : Inv s -> co_ready (sy_coord s) = true -> recover (sy_store s) = Ok (sy_coord s).
+  Proof.
+    intros [idxC [Hobs [H1 _]]] Hr. destruct (H1 Hr) as [Ht [Hi Hl]].
+    unfold ExtAct.recover. rewrite Ht. unfold committed in Hobs. rewrite Hobs.
+    destruct (sy_coord s) as [ci cn cr]; cbn in *. subst. reflexivity.
+  Qed.
+
+  (* the committed log is always recoverable once the uncommitted tail is dropped, and what is
+     recovered is the live index, or the live index plus the one transaction whose acknowledgement
+     was lost *)
+  Lemma Inv_recover_truncated s :
+    Inv s ->
+    exists co, recover (truncate (sy_store s)) = Ok co /\ co_ready co = true /\
+      (co_ready (sy_coord s) = true -> co = sy_coord s) /\
+      (co_index co = co_index (sy_coord s) \/
+       exists l t, committed s = l ++ [t] /\ observe l = Ok (co_index (sy_coord s)) /\
+                   observe (l ++ [t]) = Ok (co_index co)).
+  Proof.
+    intros HI. pose proof HI as [idxC [Hobs [H1 H2]]].
+    unfold ExtAct.recover, truncate; cbn [sto_tail sto_committed sto_base].
+    unfold committed in Hobs. rewrite Hobs. eexists; split; [reflexivity|]. split; [reflexivity|]. split.
+    - intros Hr. destruct (H1 Hr) as [Ht [Hi Hl]]. destruct (sy_coord s) as [ci cn cr]; cbn in *. subst. reflexivity.
+    - cbn [co_index]. destruct (co_ready (sy_coord s)) eqn:Er.
+      + left. destruct (H1 eq_refl) as [_ [Hi _]]. auto.
+      + destruct (H2 eq_refl) as [Hi|[l [t [Hc Ho]]]]; [left; auto|].
+        right. exists l, t. split; [exact Hc|]. split; [exact Ho|]. unfold committed in Hc. rewrite <- Hc. exact Hobs.
+  Qed.
+
+  Lemma entry_steps_prefix o : exists sfx, entry_steps o ++ sfx = [SRequested; SClaimed; SSettled].
+  Proof.
+    destruct o as [e|]; cbn [entry_steps]; [|eexists; reflexivity].
+    destruct (e_claim e); [|eexists; reflexivity].
+    destruct (e_settlement e); eexists; reflexivity.
+  Qed.
+
+  Lemma Inv_lifecycle s k : Inv s -> exists sfx, steps_of k (committed s) ++ sfx = [SRequested; SClaimed; SSettled].
+  Proof.
+    intros [idxC [Hobs _]]. destruct (observe_P _ _ Hobs) as [_ [Hrel _]]. rewrite Hrel. apply entry_steps_prefix.
+  Qed.
+
+  (* ---------------------------------------------------------------- the log only grows; grants are backed *)
+  Definition log_extends (l l' : list txrec) : Prop := exists sfx, l' = l ++ sfx.
+
+  Lemma log_extends_refl l : log_extends l l.
+  Proof. exists []. rewrite app_nil_r. reflexivity. Qed.
+  Lemma log_extends_trans a b c : log_extends a b -> log_extends b c -> log_extends a c.
+  Proof. intros [x ->] [y ->]. exists (x ++ y). rewrite app_assoc. reflexivity. Qed.
+  Lemma has_extends l l' c b : log_extends l l' -> has l c b -> has l' c b.
+  Proof. intros [sfx ->] [t [Hi Ht]]. exists t. split; [apply in_or_app; left; exact Hi|exact Ht]. Qed.
+  Lemma grant_backed_extends o l l' : log_extends l l' -> grant_backed o l -> grant_backed o l'.
+  Proof.
+    intros He. destruct o; cbn [grant_backed]; auto.
+    - apply has_extends; exact He.
+    - intros [A B]. split; [eapply has_extends; eauto|exact B].
+    - apply has_extends; exact He.
+  Qed.
+
+  (* what one step does to the committed log: nothing, or exactly one appended transaction *)
+  Lemma step_log s o :
+    committed (fst (step s o)) = committed s \/
+    exists t, committed (fst (step s o)) = committed s ++ [t] /\
+      ((exists r f, o = ORequest r f /\ tx_body t = BRequest r) \/
+       (exists r a b od le f, o = OClaim r a b od le f /\
+          tx_body t = BClaim (claim_for_request H r (au_adapter a) od le (au_policy a))) \/
+       (exists gr gc gcm cand f, o = OSettle gr gc gcm cand f /\ tx_body t = BSettle cand)) /\
+      ((forall e, snd (step s o) <> OutErr e) ->
+         snd (step s o) = match tx_body t with
+                          | BRequest r => OutToken r (tx_lsn t)
+                          | BClaim c => match o with OClaim r _ _ _ _ _ => OutGrant r c (tx_lsn t) | _ => OutRecovered end
+                          | BSettle c => OutAdmitted c (tx_lsn t)
+                          end).
+  Proof.
+    destruct o as [r f|r a basis ordinal lease f|gr gc gcommit cand f|cand|id|id|id| |]; cbn [ExtAct.step fst snd]; auto.
+    - destruct (record_request_cases s r f) as [[e ->]|[_ [_ [_ ->]]]]; [left; reflexivity|].
+      rewrite commit_entry_cases. cbv zeta. destruct f; cbn [fst snd committed sy_store sto_committed]; auto.
+      + right. eexists. split; [reflexivity|]. split; [left; eauto|]. intros; reflexivity.
+      + right. eexists. split; [reflexivity|]. split; [left; eauto|]. intros He. exfalso. apply (He WalStoreErr). reflexivity.
+    - destruct (claim_action_cases s r a basis ordinal lease f) as [[e ->]|[rec [_ [_ [_ [_ [_ [_ [_ [_ Heq]]]]]]]]]];
+        [left; reflexivity|].
+      cbv zeta in Heq. rewrite Heq, commit_entry_cases. cbv zeta.
+      destruct f; cbn [fst snd committed sy_store sto_committed]; auto.
+      + right. eexists. split; [reflexivity|]. split; [right; left; repeat eexists|]. intros; reflexivity.
+      + right. eexists. split; [reflexivity|]. split; [right; left; repeat eexists|].
+        intros He. exfalso. apply (He WalStoreErr). reflexivity.
+    - destruct (admit_settlement_cases s gr gc gcommit cand f) as [[e ->]|[rec [_ [_ [_ [_ [_ [_ [_ ->]]]]]]]]];
+        [left; reflexivity|].
+      rewrite commit_entry_cases. cbv zeta. destruct f; cbn [fst snd committed sy_store sto_committed]; auto.
+      + right. eexists. split; [reflexivity|]. split; [right; right; repeat eexists|]. intros; reflexivity.
+      + right. eexists. split; [reflexivity|]. split; [right; right; repeat eexists|].
+        intros He. exfalso. apply (He WalStoreErr). reflexivity.
+    - destruct (recover (sy_store s)); left; reflexivity.
+  Qed.
+
+  Lemma step_extends s o : log_extends (committed s) (committed (fst (step s o))).
+  Proof.
+    destruct (step_log s o) as [->|[t [-> _]]]; [apply log_extends_refl|exists [t]; reflexivity].
+  Qed.
+
+  Lemma run_from_extends ops : forall s, log_extends (committed s) (committed (fst (run_from s ops))).
+  Proof.
+    induction ops as [|o ops IH]; intros s; [apply log_extends_refl|].
+    rewrite run_from_cons. cbn [fst]. eapply log_extends_trans; [apply step_extends|apply IH].
+  Qed.
+
+  Lemma step_backed s o : Inv s -> grant_backed (snd (step s o)) (committed (fst (step s o))).
+  Proof.
+    intros HI.
+    destruct o as [r f|r a basis ordinal lease f|gr gc gcommit cand f|cand|id|id|id| |]; cbn [ExtAct.step fst snd].
+    - destruct (record_request_cases s r f) as [[e ->]|[_ [_ [_ ->]]]]; [exact I|].
+      rewrite commit_entry_cases. cbv zeta. destruct f; cbn [fst snd grant_backed]; auto.
+      cbn [committed sy_store sto_committed]. apply (has_last (sto_committed (sy_store s)) (new_tx s _ _)).
+    - destruct (claim_action_cases s r a basis ordinal lease f) as [[e ->]|[rec [_ [_ [_ [_ [_ [_ [_ [_ Heq]]]]]]]]]];
+        [exact I|].
+      cbv zeta in Heq. rewrite Heq, commit_entry_cases. cbv zeta. destruct f; cbn [fst snd grant_backed]; auto.
+      split; [|reflexivity].
+      cbn [committed sy_store sto_committed]. apply (has_last (sto_committed (sy_store s)) (new_tx s _ _)).
+    - destruct (admit_settlement_cases s gr gc gcommit cand f) as [[e ->]|[rec [_ [_ [_ [_ [_ [_ [_ ->]]]]]]]]];
+        [exact I|].
+      rewrite commit_entry_cases. cbv zeta. destruct f; cbn [fst snd grant_backed]; auto.
+      cbn [committed sy_store sto_committed]. apply (has_last (sto_committed (sy_store s)) (new_tx s _ _)).
+    - unfold ExtAct.retry. destruct (co_ready (sy_coord s)) eqn:Er; cbn [negb]; [|exact I].
+      destruct (Inv_ixok s HI Er) as [_ [_ [Hback _]]].
+      destruct (get (co_index (sy_coord s)) (st_request cand)) as [e|] eqn:Eg; [|exact I].
+      destruct (e_claim e); [|exact I]. destruct (validate_candidate H (e_request e) c cand); [exact I|].
+      destruct (e_settlement e) as [st|] eqn:Es; [|exact I].
+      destruct (e_settlement_commit e) as [n|] eqn:Ec; [|exact I].
+      destruct (settle_eqb st cand); [|exact I]. cbn [grant_backed].
+      destruct (Hback _ _ Eg) as [_ [_ Hs]]. destruct (Hs st Es) as [m [Em Hm]]. congruence.
+    - unfold ExtAct.recorded_request. destruct (co_ready (sy_coord s)) eqn:Er; cbn [negb]; [|exact I].
+      destruct (Inv_ixok s HI Er) as [_ [_ [Hback _]]].
+      destruct (get (co_index (sy_coord s)) id) as [e|] eqn:Eg; [|exact I].
+      destruct (e_claim e); [exact I|]. cbn [grant_backed]. apply (Hback _ _ Eg).
+    - unfold ExtAct.claim_grant. destruct (co_ready (sy_coord s)) eqn:Er; cbn [negb]; [|exact I].
+      destruct (Inv_ixok s HI Er) as [[_ Hok] [_ [Hback _]]].
+      destruct (get (co_index (sy_coord s)) id) as [e|] eqn:Eg; [|exact I].
+      destruct (e_claim e) as [c|] eqn:Ec; [|exact I]. destruct (e_settlement e); [exact I|].
+      destruct (e_claim_commit e) as [n|] eqn:Ecc; [|exact I]. cbn [grant_backed].
+      destruct (Hback _ _ Eg) as [_ [Hc _]]. destruct (Hc c Ec) as [m [Em Hm]].
+      split; [congruence|]. destruct (Hok _ _ Eg) as [_ [_ Hrest]]. rewrite Ec in Hrest.
+      destruct Hrest as [Hv _]. apply validate_claim_request; exact Hv.
+    - unfold ExtAct.admitted_settlement. destruct (co_ready (sy_coord s)) eqn:Er; cbn [negb]; [|exact I].
+      destruct (Inv_ixok s HI Er) as [_ [_ [Hback _]]].
+      destruct (get (co_index (sy_coord s)) id) as [e|] eqn:Eg; [|exact I].
+      destruct (e_settlement e) as [st|] eqn:Es; [|exact I].
+      destruct (e_settlement_commit e) as [n|] eqn:Ec; [|exact I]. cbn [grant_backed].
+      destruct (Hback _ _ Eg) as [_ [_ Hs]]. destruct (Hs st Es) as [m [Em Hm]]. congruence.
+    - destruct (recover (sy_store s)); exact I.
+    - exact I.
+  Qed.
+
+  Lemma run_from_backed ops : forall s, Inv s ->
+    forall o r, In (o, r) (snd (run_from s ops)) -> grant_backed r (committed (fst (run_from s ops))).
+  Proof.
+    induction ops as [|o ops IH]; intros s HI o' r Hin; [destruct Hin|].
+    rewrite run_from_cons in Hin |- *. cbn [fst snd] in *. destruct Hin as [E|Hin].
+    - inversion E; subst. eapply grant_backed_extends; [apply run_from_extends|apply step_backed; exact HI].
+    - eapply IH; [apply step_Inv; exact HI|exact Hin].
+  Qed.
+
+  (* ---------------------------------------------------------------- at most one claim grant per request id *)
+  Definition is_claimed (st : lstep) : bool := match st with SClaimed => true | _ => false end.
+  Definition nclaims (k : N) (l : list txrec) : nat := length (filter is_claimed (steps_of k l)).
+
+  Lemma nclaims_snoc k l t :
+    nclaims k (l ++ [t]) =
+    (nclaims k l + (if N.eqb (body_id (tx_body t)) k && is_claimed (body_step (tx_body t)) then 1 else 0))%nat.
+  Proof.
+    unfold nclaims. rewrite steps_of_snoc, filter_app, app_length.
+    destruct (body_id (tx_body t) =? k); cbn [andb filter length]; [|reflexivity].
+    destruct (is_claimed (body_step (tx_body t))); reflexivity.
+  Qed.
+
+  Lemma step_claims s o k :
+    ((if is_claim_grant k (o, snd (step s o)) then 1 else 0) + nclaims k (committed s) <=
+     nclaims k (committed (fst (step s o))))%nat.
+  Proof.
+    destruct (step_log s o) as [E|[t [E [Hkind Hout]]]].
+    - rewrite E. destruct (is_claim_grant k (o, snd (step s o))) eqn:Ec; [|lia].
+      exfalso. destruct o; cbn [is_claim_grant] in Ec; try discriminate.
+      cbn [ExtAct.step snd] in Ec.
+      destruct (claim_action_cases s r a basis ordinal lease f) as [[e He]|[rec [_ [_ [_ [_ [_ [_ [_ [_ Heq]]]]]]]]]].
+      + rewrite He in Ec. discriminate.
+      + cbv zeta in Heq. cbn [ExtAct.step fst] in E. rewrite Heq, commit_entry_cases in E, Ec. cbv zeta in E, Ec.
+        destruct f; cbn [fst snd] in E, Ec; try discriminate.
+        unfold committed in E; cbn in E. apply (f_equal (@length _)) in E. rewrite app_length in E. cbn in E. lia.
+    - rewrite E, nclaims_snoc. destruct (is_claim_grant k (o, snd (step s o))) eqn:Ec; [|lia].
+      destruct o; cbn [is_claim_grant] in Ec; try discriminate.
+      destruct (snd (step s (OClaim r a basis ordinal lease f))) as [| r' c' n' | | |] eqn:Eo; try discriminate.
+      destruct Hkind as [[r0 [f0 [X _]]]|[[r0 [a0 [b0 [od [le [f0 [X Hb]]]]]]]|[gr [gc [gcm [cand [f0 [X _]]]]]]]]; try discriminate.
+      inversion X; subst. rewrite Hb in Hout |- *.
+      assert (Hne : forall e, OutGrant r' c' n' <> OutErr e) by (intros e; discriminate).
+      specialize (Hout Hne). inversion Hout; subst.
+      cbn [body_id body_step claim_for_request cl_request is_claimed]. rewrite Ec. cbn. lia.
+  Qed.
+
+  Lemma run_from_claims ops k : forall s,
+    (length (filter (is_claim_grant k) (snd (run_from s ops))) + nclaims k (committed s) <=
+     nclaims k (committed (fst (run_from s ops))))%nat.
+  Proof.
+    induction ops as [|o ops IH]; intros s; [cbn; lia|].
+    rewrite run_from_cons. cbn [fst snd filter].
+    pose proof (step_claims s o k) as Hs. pose proof (IH (fst (step s o))) as Hr.
+    destruct (is_claim_grant k (o, snd (step s o))); cbn [length]; lia.
+  Qed.
+
+  Lemma Inv_nclaims s k : Inv s -> (nclaims k (committed s) <= 1)%nat.
+  Proof.
+    intros [idxC [Hobs _]]. destruct (observe_P _ _ Hobs) as [_ [Hrel _]]. unfold nclaims. rewrite Hrel.
+    destruct (get idxC k) as [e|]; cbn [entry_steps filter is_claimed length]; [|lia].
+    destruct (e_claim e); cbn [filter is_claimed length]; [|lia].
+    destruct (e_settlement e); cbn; lia.
+  Qed.
+
+  (* ---------------------------------------------------------------- sparse Merkle index: basics *)
+  Lemma path_eqb_eq a b : path_eqb a b = true <-> a = b.
+  Proof.
+    revert b; induction a as [|x a IH]; destruct b as [|y b]; cbn; try (split; [discriminate|discriminate]); [tauto|].
+    rewrite andb_true_iff, IH, Bool.eqb_true_iff. split; [intros [-> ->]; reflexivity|intros E; inversion E; auto].
+  Qed.
+
+  Lemma bits_length n k : length (bits n k) = n.
+  Proof. induction n; cbn; auto. Qed.
+
+  Lemma bits_testbit n k k' :
+    bits n k = bits n k' -> forall i, (i < n)%nat -> N.testbit k (N.of_nat i) = N.testbit k' (N.of_nat i).
+  Proof.
+    induction n as [|n IH]; intros E i Hi; [lia|].
+    cbn [bits] in E. inversion E as [[E1 E2]].
+    destruct (Nat.eq_dec i n) as [->|Hne]; [exact E1|]. apply IH; [exact E2|lia].
+  Qed.
+
+  Lemma bits_inj n k k' : k < 2 ^ N.of_nat n -> k' < 2 ^ N.of_nat n -> bits n k = bits n k' -> k = k'.
+  Proof.
+    intros Hk Hk' E. apply N.bits_inj. intros m.
+    destruct (N.lt_ge_cases m (N.of_nat n)) as [Hlt|Hge].
+    - replace m with (N.of_nat (N.to_nat m)) by apply N2Nat.id. apply (bits_testbit n); [exact E|lia].
+    - rewrite <- (N.mod_small k (2 ^ N.of_nat n)) by exact Hk.
+      rewrite <- (N.mod_small k' (2 ^ N.of_nat n)) by exact Hk'.
+      rewrite !N.mod_pow2_bits_high by exact Hge. reflexivity.
+  Qed.
+
+  Notation spec_tree := (spec_tree H).
+  Notation empty_from := (empty_from H).
+  Notation empty_table := (empty_table H D).
+  Notation node_hash := (node_hash H).
+
+  Lemma spec_tree_ext n : forall d f g,
+    (forall p, length p = n -> f p = g p) -> spec_tree n d f = spec_tree n d g.
+  Proof.
+    induction n as [|n IH]; intros d f g Hfg; cbn [ExtAct.spec_tree].
+    - rewrite (Hfg [] eq_refl). reflexivity.
+    - f_equal; apply IH; intros p Hp; apply Hfg; cbn; lia.
+  Qed.
+
+  Lemma empty_spec n : forall d, spec_tree n d (fun _ => None) = empty_from n d.
+  Proof. induction n as [|n IH]; intros d; cbn; [reflexivity|]. rewrite !IH. reflexivity. Qed.
+
+  Lemma empty_table_nonempty n : empty_table n <> [].
+  Proof.
+    induction n as [|n IH]; cbn [ExtAct.empty_table]; [discriminate|].
+    destruct (empty_table n); [exact IH|discriminate].
+  Qed.
+
+  Lemma empty_table_nth n : (n <= D)%nat -> forall j, (j <= n)%nat ->
+    nth j (empty_table n) 0 = empty_from (n - j) (D - n + j).
+  Proof.
+    induction n as [|n IH]; intros Hn j Hj.
+    - assert (j = 0)%nat by lia. subst. reflexivity.
+    - cbn [ExtAct.empty_table].
+      assert (Hn' : (n <= D)%nat) by lia.
+      pose proof (IH Hn' 0%nat (Nat.le_0_l _)) as H0.
+      destruct (empty_table n) as [|c t] eqn:Et.
+      { exfalso. exact (empty_table_nonempty n Et). }
+      destruct j as [|j].
+      + cbn [nth]. cbn [nth] in H0. rewrite H0.
+        replace (S n - 0)%nat with (S n) by lia. replace (n - 0)%nat with n by lia.
+        replace (D - S n + 0)%nat with (D - S n)%nat by lia. replace (D - n + 0)%nat with (D - n)%nat by lia.
+        cbn [ExtAct.empty_from]. replace (S (D - S n)) with (D - n)%nat by lia. reflexivity.
+      + transitivity (nth j (c :: t) 0); [reflexivity|]. rewrite (IH Hn' j) by lia. f_equal; lia.
+  Qed.
+
+  Lemma find_apply_notin ups : forall nodes q,
+    ~ In q (map fst ups) -> find path_cmp q (apply_updates nodes ups) = find path_cmp q nodes.
+  Proof.
+    induction ups as [|[k v] ups IH]; intros nodes q Hni; [reflexivity|].
+    cbn [apply_updates fold_left fst snd]. fold (apply_updates (set path_cmp k v nodes) ups).
+    rewrite IH by (intro X; apply Hni; right; exact X).
+    apply find_set_other; [exact p_eq|]. intro E; apply Hni; left; cbn; auto.
+  Qed.
+
+  Lemma find_apply_in ups : forall nodes q v,
+    NoDup (map fst ups) -> In (q, v) ups -> find path_cmp q (apply_updates nodes ups) = Some v.
+  Proof.
+    induction ups as [|[k v0] ups IH]; intros nodes q v Hnd Hin; [destruct Hin|].
+    cbn [map fst] in Hnd. inversion Hnd as [|a b Hni Hnd']; subst.
+    cbn [apply_updates fold_left fst snd]. fold (apply_updates (set path_cmp k v0 nodes) ups).
+    destruct Hin as [E|Hin].
+    - inversion E; subst. rewrite find_apply_notin by exact Hni. apply find_set_same. exact p_eq.
+    - apply IH; auto.
+  Qed.
+
+  (* ---------------------------------------------------------------- path update = rebuild *)
+  Definition minv (nodes : list (path * N)) (f : path -> option N) : Prop :=
+    forall rp, (length rp <= D)%nat ->
+      node_val (nth (length rp) EH 0) nodes rp =
+      spec_tree (D - length rp) (length rp) (fun sfx => f (rev rp ++ sfx)).
+
+  Definition upd_leaf (f : path -> option N) (kp : path) (leaf : N) : path -> option N :=
+    fun p => if path_eqb p kp then Some leaf else f p.
+
+  Lemma tl_skipn {A} n (l : list A) : tl (skipn n l) = skipn (S n) l.
+  Proof. revert l; induction n as [|n IH]; intros [|x l]; cbn; auto. apply (IH l). Qed.
+
+  Lemma hd_skipn {A} n (l : list A) d : hd d (skipn n l) = nth n l d.
+  Proof. revert l; induction n as [|n IH]; intros [|x l]; cbn; auto. Qed.
+
+  Lemma NoDup_snoc {A} (l : list A) x : NoDup l -> ~ In x l -> NoDup (l ++ [x]).
+  Proof.
+    induction l as [|y l IH]; intros Hnd Hni; cbn; [constructor; [intros []|constructor]|].
+    inversion Hnd; subst. constructor.
+    - intro Hin. apply in_app_or in Hin. destruct Hin as [Hin|[E|[]]]; [contradiction|].
+      subst. apply Hni. left; reflexivity.
+    - apply IH; [assumption|]. intro X; apply Hni; right; exact X.
+  Qed.
+
+  Lemma upd_leaf_same f kp leaf : upd_leaf f kp leaf kp = Some leaf.
+  Proof. unfold upd_leaf. replace (path_eqb kp kp) with true by (symmetry; apply path_eqb_eq; reflexivity). reflexivity. Qed.
+
+  Lemma upd_leaf_other f kp leaf p : p <> kp -> upd_leaf f kp leaf p = f p.
+  Proof.
+    intros Hne. unfold upd_leaf. destruct (path_eqb p kp) eqn:E; [|reflexivity].
+    apply path_eqb_eq in E. contradiction.
+  Qed.
+
+  Lemma plan_path_spec nodes f kp leaf :
+    minv nodes f -> length kp = D ->
+    forall rest rp, rev rp ++ rest = kp ->
+      let r := plan_path nodes (skipn (length rp) EH) rp rest leaf in
+      fst r = spec_tree (length rest) (length rp) (fun sfx => upd_leaf f kp leaf (rev rp ++ sfx)) /\
+      (forall q v, In (q, v) (snd r) ->
+         (length rp <= length q)%nat /\
+         exists suf, rev q ++ suf = kp /\
+                     v = spec_tree (length suf) (length q) (fun sfx => upd_leaf f kp leaf (rev q ++ sfx))) /\
+      (forall pre suf, rest = pre ++ suf -> In (rev pre ++ rp) (map fst (snd r))) /\
+      NoDup (map fst (snd r)).
+  Proof.
+    intros Hinv Hlen. induction rest as [|b rest IH]; intros rp Hkp; cbv zeta.
+    - cbn [ExtAct.plan_path fst snd length]. rewrite app_nil_r in Hkp.
+      assert (Hv : leaf = spec_tree 0 (length rp) (fun sfx => upd_leaf f kp leaf (rev rp ++ sfx))).
+      { cbn [ExtAct.spec_tree]. rewrite app_nil_r, Hkp, upd_leaf_same. reflexivity. }
+      split; [exact Hv|]. split; [|split].
+      + intros q v [E|[]]. inversion E; subst q v. split; [lia|]. exists []. rewrite app_nil_r. split; [exact Hkp|exact Hv].
+      + intros pre suf E. symmetry in E. apply app_eq_nil in E. destruct E as [-> _]. left. reflexivity.
+      + cbn. constructor; [intros []|constructor].
+    - cbn [ExtAct.plan_path]. rewrite tl_skipn.
+      assert (Hkp' : rev (b :: rp) ++ rest = kp).
+      { cbn [rev]. rewrite <- app_assoc. exact Hkp. }
+      specialize (IH (b :: rp) Hkp'). cbv zeta in IH. cbn [length] in IH.
+      destruct (plan_path nodes (skipn (S (length rp)) EH) (b :: rp) rest leaf) as [child ups] eqn:Ep.
+      cbn [fst snd] in IH |- *. destruct IH as [Hchild [Hups [Hkeys Hnd]]].
+      assert (HD : (length rp + S (length rest) = D)%nat).
+      { rewrite <- Hlen, <- Hkp, app_length, rev_length. cbn [length]. lia. }
+      set (sib := node_val (hd 0 (skipn (S (length rp)) EH)) nodes (negb b :: rp)).
+      assert (Hsib : sib = spec_tree (length rest) (S (length rp))
+                                     (fun sfx => upd_leaf f kp leaf (rev rp ++ negb b :: sfx))).
+      { unfold sib. rewrite hd_skipn.
+        pose proof (Hinv (negb b :: rp)) as X. cbn [length] in X. rewrite X by lia.
+        replace (D - S (length rp))%nat with (length rest) by lia.
+        apply spec_tree_ext. intros p _. cbn [rev]. rewrite <- app_assoc. cbn [app].
+        symmetry. apply upd_leaf_other. rewrite <- Hkp. intro E. apply app_inv_head in E.
+        inversion E as [[E1 E2]]. destruct b; discriminate. }
+      assert (Hchild' : child = spec_tree (length rest) (S (length rp))
+                                         (fun sfx => upd_leaf f kp leaf (rev rp ++ b :: sfx))).
+      { rewrite Hchild. apply spec_tree_ext. intros p _. cbn [rev]. rewrite <- app_assoc. reflexivity. }
+      set (h := if b then node_hash (length rp) sib child else node_hash (length rp) child sib).
+      assert (Hh : h = spec_tree (length (b :: rest)) (length rp) (fun sfx => upd_leaf f kp leaf (rev rp ++ sfx))).
+      { cbn [length ExtAct.spec_tree]. unfold h. destruct b; cbn [negb] in Hsib; rewrite Hsib, Hchild'; reflexivity. }
+      split; [exact Hh|]. split; [|split].
+      + intros q v Hin. apply in_app_or in Hin. destruct Hin as [Hin|[E|[]]].
+        * destruct (Hups q v Hin) as [Hl Hx]. split; [lia|exact Hx].
+        * inversion E; subst q v. split; [lia|]. exists (b :: rest). split; [exact Hkp|exact Hh].
+      + intros pre suf E. rewrite map_app. apply in_or_app. destruct pre as [|b' pre].
+        * right. left. reflexivity.
+        * left. cbn [app] in E. inversion E; subst b'. cbn [rev]. rewrite <- app_assoc. cbn [app].
+          apply (Hkeys pre suf). assumption.
+      + rewrite map_app. cbn [map fst]. apply NoDup_snoc; [exact Hnd|].
+        intro Hin. apply in_map_iff in Hin. destruct Hin as [[q v] [Eq Hin]]. cbn [fst] in Eq. subst q.
+        destruct (Hups rp v Hin) as [Hl _]. lia.
+  Qed.
+
+  Lemma minv_update nodes f kp leaf :
+    minv nodes f -> length kp = D ->
+    minv (apply_updates nodes (snd (plan_path nodes EH [] kp leaf))) (upd_leaf f kp leaf).
+  Proof.
+    intros Hinv Hlen.
+    pose proof (plan_path_spec nodes f kp leaf Hinv Hlen kp [] eq_refl) as X. cbv zeta in X.
+    cbn [length skipn] in X. destruct X as [_ [Hups [Hkeys Hnd]]].
+    intros rq Hrq. unfold node_val.
+    destruct (in_dec (list_eq_dec Bool.bool_dec) rq (map fst (snd (plan_path nodes EH [] kp leaf)))) as [Hin|Hni].
+    - apply in_map_iff in Hin. destruct Hin as [[q v] [Eq Hin]]. cbn [fst] in Eq. subst q.
+      rewrite (find_apply_in _ nodes rq v Hnd Hin).
+      destruct (Hups rq v Hin) as [_ [suf [Hk Hv]]]. rewrite Hv.
+      replace (D - length rq)%nat with (length suf); [reflexivity|].
+      rewrite <- Hlen, <- Hk, app_length, rev_length. lia.
+    - rewrite find_apply_notin by exact Hni. fold (node_val (nth (length rq) EH 0) nodes rq).
+      rewrite (Hinv rq Hrq). apply spec_tree_ext. intros p Hp. symmetry. apply upd_leaf_other.
+      intro E. apply Hni. specialize (Hkeys (rev rq) p (eq_sym E)).
+      rewrite rev_involutive, app_nil_r in Hkeys. exact Hkeys.
+  Qed.
+
+  (* ---------------------------------------------------------------- root = function of the entries *)
+  Notation leaf_lookup := (leaf_lookup H D).
+
+  Lemma path_eqb_sym a b : path_eqb a b = path_eqb b a.
+  Proof.
+    destruct (path_eqb a b) eqn:E1, (path_eqb b a) eqn:E2; auto.
+    - apply path_eqb_eq in E1. subst. assert (path_eqb b b = true) by (apply path_eqb_eq; reflexivity). congruence.
+    - apply path_eqb_eq in E2. subst. assert (path_eqb a a = true) by (apply path_eqb_eq; reflexivity). congruence.
+  Qed.
+
+  Lemma in_set {K V} (cmp : K -> K -> comparison) k v (m : list (K * V)) x :
+    In x (set cmp k v m) -> x = (k, v) \/ In x m.
+  Proof.
+    induction m as [|[k1 v1] r IH]; cbn; [intros [E|[]]; auto|].
+    destruct (cmp k k1); cbn; intros [E|Hin]; auto.
+    destruct (IH Hin); auto.
+  Qed.
+
+  Lemma leaf_lookup_set es k e p :
+    (forall k' e', In (k', e') es -> k' < 2 ^ N.of_nat D) -> k < 2 ^ N.of_nat D ->
+    leaf_lookup (set N.compare k e es) p = upd_leaf (leaf_lookup es) (bits D k) (leaf_hash H e) p.
+  Proof.
+    intros Hb Hk. unfold upd_leaf. rewrite (path_eqb_sym p).
+    induction es as [|[k1 e1] r IH]; cbn [set ExtAct.leaf_lookup]; [reflexivity|].
+    assert (Hb' : forall k' e', In (k', e') r -> k' < 2 ^ N.of_nat D) by (intros; eapply Hb; right; eauto).
+    destruct (N.compare k k1) eqn:Ec; cbn [ExtAct.leaf_lookup].
+    - apply N.compare_eq in Ec. subst k1. destruct (path_eqb (bits D k) p); reflexivity.
+    - reflexivity.
+    - rewrite (IH Hb'). destruct (path_eqb (bits D k1) p) eqn:E1; [|reflexivity].
+      destruct (path_eqb (bits D k) p) eqn:E2; [|reflexivity].
+      exfalso. apply path_eqb_eq in E1, E2. assert (k = k1).
+      { apply (bits_inj D); [exact Hk|eapply Hb; left; reflexivity|congruence]. }
+      subst. rewrite N.compare_refl in Ec. discriminate.
+  Qed.
+
+  Definition J (idx : index) : Prop :=
+    minv (ix_nodes idx) (leaf_lookup (ix_entries idx)) /\
+    (forall k e, In (k, e) (ix_entries idx) -> k < 2 ^ N.of_nat D).
+
+  Lemma J_empty : EH = empty_table D -> J empty_index.
+  Proof.
+    intros HEH. split; [|intros k e []].
+    intros rp Hrp. cbn [ix_nodes ix_entries empty_index]. unfold node_val. cbn [find].
+    rewrite HEH, (empty_table_nth D (le_n D)) by exact Hrp.
+    replace (D - D + length rp)%nat with (length rp) by lia.
+    rewrite <- empty_spec. apply spec_tree_ext. intros; reflexivity.
+  Qed.
+
+  Lemma J_upsert idx e : J idx -> rq_id (e_request e) < 2 ^ N.of_nat D -> J (upsert idx e).
+  Proof.
+    intros [Hm Hb] Hk. split.
+    - unfold ExtAct.upsert, apply_mutation, ExtAct.plan_entry; cbn [ix_nodes ix_entries].
+      pose proof (minv_update (ix_nodes idx) _ (bits D (rq_id (e_request e))) (leaf_hash H e) Hm (bits_length _ _)) as X.
+      intros rp Hrp. rewrite (X rp Hrp). apply spec_tree_ext. intros p _.
+      symmetry. apply leaf_lookup_set; assumption.
+    - intros k e' Hin. unfold ExtAct.upsert, apply_mutation in Hin; cbn [ix_entries] in Hin.
+      apply in_set in Hin. destruct Hin as [E|Hin]; [inversion E; subst; exact Hk|eapply Hb; eauto].
+  Qed.
+
+  Lemma J_root idx : J idx -> root idx = spec_root H D (ix_entries idx).
+  Proof.
+    intros [Hm _]. specialize (Hm [] (Nat.le_0_l D)). cbn [length rev app] in Hm.
+    unfold root_digest, spec_root. rewrite Nat.sub_0_r in Hm.
+    replace (hd 0 EH) with (nth 0 EH 0) by (destruct EH; reflexivity).
+    rewrite Hm. apply spec_tree_ext. intros; reflexivity.
+  Qed.
+
+  Lemma fold_upsert_J es : forall idx, J idx -> (forall e, In e es -> rq_id (e_request e) < 2 ^ N.of_nat D) ->
+    J (fold_left upsert es idx).
+  Proof.
+    induction es as [|e es IH]; intros idx HJ Hb; [exact HJ|].
+    cbn [fold_left]. apply IH; [apply J_upsert; [exact HJ|apply Hb; left; reflexivity]|].
+    intros e' Hin; apply Hb; right; exact Hin.
+  Qed.
+
+  Lemma root_rebuilt :
+    EH = empty_table D -> forall es, (forall e, In e es -> rq_id (e_request e) < 2 ^ N.of_nat D) ->
+    root (fold_left upsert es empty_index) = spec_root H D (ix_entries (fold_left upsert es empty_index)).
+  Proof. intros HEH es Hb. apply J_root, fold_upsert_J; [apply J_empty; exact HEH|exact Hb]. Qed.
+
+  (* the coordinator's index (D = 256: request ids are 32-byte digests) *)
+  Lemma H32_lt l : H32 H l < 2 ^ 256.
+  Proof.
+    unfold H32, mask256. rewrite N.land_ones. apply N.mod_lt. apply N.pow_nonzero. discriminate.
+  Qed.
+
+  Lemma apply_body_J idx b c idx' :
+    D = 256%nat -> J idx -> ixok idx -> apply_body idx b c = Ok idx' -> J idx'.
+  Proof.
+    intros HD HJ [_ Hok] Ha. apply apply_body_inv in Ha.
+    assert (Hpow : 2 ^ N.of_nat D = 2 ^ 256) by (rewrite HD; reflexivity).
+    assert (Hkey : forall k e, get idx k = Some e -> rq_id (e_request e) < 2 ^ N.of_nat D).
+    { intros k e Hg. destruct (Hok _ _ Hg) as [Hid _]. rewrite Hid. destruct HJ as [_ Hb].
+      apply (Hb k e). apply find_in with (cmp := N.compare); [exact n_eq|exact Hg]. }
+    destruct b as [r|cl|s].
+    - destruct Ha as [Hv [_ ->]]. apply J_upsert; [exact HJ|]. cbn [mk_requested e_request].
+      destruct (validate_identity_facts _ Hv) as [-> _]. rewrite Hpow. apply H32_lt.
+    - destruct Ha as [e [Hg [_ [_ ->]]]]. apply J_upsert; [exact HJ|]. cbn [with_claim e_request]. eapply Hkey; eauto.
+    - destruct Ha as [_ [_ [e [cl [Hg [_ [_ [_ ->]]]]]]]]. apply J_upsert; [exact HJ|].
+      cbn [with_settlement e_request]. eapply Hkey; eauto.
+  Qed.
+
+  Lemma observe_from_PJ l2 : D = 256%nat -> forall l1 idx idx',
+    P l1 idx -> J idx -> observe_from idx l2 = Ok idx' -> J idx'.
+  Proof.
+    intros HD. induction l2 as [|t l2 IH]; intros l1 idx idx' HP HJ Ho.
+    - cbn in Ho. inversion Ho; subst. exact HJ.
+    - cbn [ExtAct.observe_from] in Ho. destruct (apply_record idx t) as [i|] eqn:Ea; [|discriminate].
+      apply (IH (l1 ++ [t]) i idx'); [eapply apply_record_P; eauto| |exact Ho].
+      unfold ExtAct.apply_record in Ea.
+      destruct (apply_body idx (tx_body t) (tx_lsn t)) as [i'|] eqn:Eb; [|discriminate].
+      destruct ((tx_before t =? root idx) && (tx_after t =? root i')); [|discriminate].
+      inversion Ea; subst. eapply apply_body_J; eauto. apply HP.
+  Qed.
+
+  Lemma Inv_root s :
+    D = 256%nat -> EH = empty_table D -> Inv s ->
+    root (co_index (sy_coord s)) = spec_root H D (ix_entries (co_index (sy_coord s))).
+  Proof.
+    intros HD HEH [idxC [Hobs [H1 H2]]]. apply J_root.
+    assert (HJ : forall l idx, observe l = Ok idx -> J idx).
+    { intros l idx Ho. eapply (observe_from_PJ l HD [] empty_index idx P_empty (J_empty HEH)). exact Ho. }
+    destruct (co_ready (sy_coord s)) eqn:Er.
+    - destruct (H1 eq_refl) as [_ [-> _]]. eapply HJ; eauto.
+    - destruct (H2 eq_refl) as [->|[l [t [_ Ho]]]]; eapply HJ; eauto.
+  Qed.
+
+  (* ---------------------------------------------------------------- remaining facts *)
+  Lemma Inv_grants_agree s c1 n1 c2 n2 :
+    Inv s -> has (committed s) n1 (BClaim c1) -> has (committed s) n2 (BClaim c2) ->
+    cl_request c1 = cl_request c2 -> c1 = c2 /\ n1 = n2.
+  Proof.
+    intros [idxC [Hobs _]] [t1 [Hi1 [Hl1 Hb1]]] [t2 [Hi2 [Hl2 Hb2]]] Hk.
+    destruct (observe_P _ _ Hobs) as [_ [_ [_ Hrefl]]].
+    pose proof (Hrefl t1 Hi1) as R1. pose proof (Hrefl t2 Hi2) as R2. rewrite Hb1 in R1. rewrite Hb2 in R2.
+    destruct R1 as [e1 [G1 [C1 N1]]]. destruct R2 as [e2 [G2 [C2 N2]]].
+    rewrite Hk in G1. rewrite G1 in G2. inversion G2; subst e2. split; congruence.
+  Qed.
+
+  Lemma Inv_settlement_exact s st n :
+    Inv s -> has (committed s) n (BSettle st) ->
+    exists r cl nr nc,
+      has (committed s) nr (BRequest r) /\ has (committed s) nc (BClaim cl) /\
+      validate_identity H r = None /\ validate_claim H r cl = None /\ validate_candidate H r cl st = None.
+  Proof.
+    intros [idxC [Hobs _]] [t [Hi [Hl Hb]]].
+    destruct (observe_P _ _ Hobs) as [[_ Hok] [_ [Hback Hrefl]]].
+    pose proof (Hrefl t Hi) as R. rewrite Hb in R. destruct R as [e [Hg [Hs _]]].
+    destruct (Hok _ _ Hg) as [_ [Hvi Hrest]]. destruct (Hback _ _ Hg) as [Hbr [Hbc _]].
+    destruct (e_claim e) as [cl|] eqn:Ec.
+    - destruct Hrest as [Hvc [_ Hrest]]. rewrite Hs in Hrest. destruct Hrest as [Hvs _].
+      destruct (Hbc cl eq_refl) as [nc [_ Hnc]].
+      exists (e_request e), cl, (e_request_commit e), nc. auto.
+    - destruct Hrest as [_ [X _]]. congruence.
+  Qed.
+
+  Lemma fault_step s o :
+    op_fault o <> NoFault ->
+    is_grant (snd (step s o)) = false /\
+    co_index (sy_coord (fst (step s o))) = co_index (sy_coord s) /\
+    (op_fault o <> FailAfterSync -> committed (fst (step s o)) = committed s).
+  Proof.
+    intros Hf.
+    destruct o as [r f|r a basis ordinal lease f|gr gc gcommit cand f|cand|id|id|id| |]; cbn [op_fault] in Hf;
+      try (exfalso; apply Hf; reflexivity); cbn [ExtAct.step op_fault].
+    - destruct (record_request_cases s r f) as [[e ->]|[_ [_ [_ ->]]]]; [cbn; auto|].
+      rewrite commit_entry_cases. cbv zeta. destruct f; cbn; auto; try (exfalso; apply Hf; reflexivity).
+      repeat split; auto. intros X; exfalso; apply X; reflexivity.
+    - destruct (claim_action_cases s r a basis ordinal lease f) as [[e ->]|[rec [_ [_ [_ [_ [_ [_ [_ [_ Heq]]]]]]]]]];
+        [cbn; auto|].
+      cbv zeta in Heq. rewrite Heq, commit_entry_cases. cbv zeta.
+      destruct f; cbn; auto; try (exfalso; apply Hf; reflexivity).
+      repeat split; auto. intros X; exfalso; apply X; reflexivity.
+    - destruct (admit_settlement_cases s gr gc gcommit cand f) as [[e ->]|[rec [_ [_ [_ [_ [_ [_ [_ ->]]]]]]]]];
+        [cbn; auto|].
+      rewrite commit_entry_cases. cbv zeta. destruct f; cbn; auto; try (exfalso; apply Hf; reflexivity).
+      repeat split; auto. intros X; exfalso; apply X; reflexivity.
+  Qed.
 End Proofs.
+
+(* ------------------------------------------------------------------ statements pinned in Props/C17.v *)
+Definition committed_after H D EH ops := committed (state_after H D EH ops).
+
+Lemma lifecycle_prefix_run H D EH ops k :
+  exists sfx, steps_of k (committed_after H D EH ops) ++ sfx = [SRequested; SClaimed; SSettled].
+Proof. apply (Inv_lifecycle H D EH), state_after_Inv. Qed.
+
+Lemma one_claim_run H D EH ops k :
+  (length (filter (is_claim_grant k) (trace_of H D EH ops)) <= 1)%nat.
+Proof.
+  pose proof (run_from_claims H D EH ops k (init_sys 0)) as X.
+  pose proof (Inv_nclaims H D EH _ k (state_after_Inv H D EH ops)) as Y.
+  assert (Z : nclaims k (committed (init_sys 0)) = 0%nat) by reflexivity.
+  unfold trace_of, state_after in *. unfold ExtAct.run in *. lia.
+Qed.
+
+Lemma log_before_grant_run H D EH ops o r :
+  In (o, r) (trace_of H D EH ops) -> grant_backed r (committed_after H D EH ops).
+Proof. apply (run_from_backed H D EH ops (init_sys 0) (Inv_init H D EH 0)). Qed.
+
+Lemma grants_agree_run H D EH ops o1 r1 c1 n1 o2 r2 c2 n2 :
+  In (o1, OutGrant r1 c1 n1) (trace_of H D EH ops) -> In (o2, OutGrant r2 c2 n2) (trace_of H D EH ops) ->
+  rq_id r1 = rq_id r2 -> c1 = c2 /\ n1 = n2.
+Proof.
+  intros I1 I2 Hk. apply log_before_grant_run in I1, I2. cbn [grant_backed] in I1, I2.
+  destruct I1 as [B1 K1], I2 as [B2 K2].
+  eapply (Inv_grants_agree H D EH _ c1 n1 c2 n2 (state_after_Inv H D EH ops)); eauto. congruence.
+Qed.
+
+Lemma settlement_exact_run H D EH ops st n :
+  has (committed_after H D EH ops) n (BSettle st) ->
+  exists r cl nr nc,
+    has (committed_after H D EH ops) nr (BRequest r) /\ has (committed_after H D EH ops) nc (BClaim cl) /\
+    rq_id r = st_request st /\ cl_request cl = st_request st /\
+    st_attempt st = cl_attempt cl /\ st_adapter st = cl_adapter cl /\
+    cl_attempt cl = attempt_id H (rq_id r) (cl_ordinal cl) (cl_adapter cl) (cl_lease cl) (cl_policy cl) /\
+    cl_ordinal cl < rq_max_attempts r /\ rq_max_attempts r = 1 /\
+    st_basis st = rq_basis r /\ st_schema st = rq_set_schema r /\
+    lenN (st_bytes st) <= rq_max_bytes r /\ rq_max_bytes r <= MAX_SETTLEMENT_BYTES /\
+    H32 H (st_bytes st) = st_digest st /\ st_schema_ev st <> 0 /\ st_ext_ev st <> 0.
+Proof.
+  intros Hh. destruct (Inv_settlement_exact H D EH _ st n (state_after_Inv H D EH ops) Hh)
+    as [r [cl [nr [nc [Hr [Hc [Vi [Vc Vs]]]]]]]].
+  exists r, cl, nr, nc.
+  destruct (validate_identity_facts H _ Vi) as [_ [_ [Ha Hm]]].
+  destruct (validate_claim_facts H _ _ Vc) as [Ecl [Ho _]].
+  destruct (validate_candidate_facts H _ _ _ Vs) as [A1 [A2 [A3 [A4 [A5 [A6 [A7 [A8 A9]]]]]]]].
+  pose proof (validate_claim_request H _ _ Vc) as Hq.
+  repeat split; auto; try congruence.
+  rewrite Ecl at 1. reflexivity.
+Qed.
+
+Lemma recover_eq_live_run H D EH ops :
+  co_ready (sy_coord (state_after H D EH ops)) = true ->
+  recover H D EH (sy_store (state_after H D EH ops)) = Ok (sy_coord (state_after H D EH ops)).
+Proof. apply (Inv_recover H D EH), state_after_Inv. Qed.
+
+Lemma recover_after_crash_run H D EH ops :
+  let s := state_after H D EH ops in
+  exists co, recover H D EH (truncate (sy_store s)) = Ok co /\ co_ready co = true /\
+    (co_ready (sy_coord s) = true -> co = sy_coord s) /\
+    (co_index co = co_index (sy_coord s) \/
+     exists l t, sto_committed (sy_store s) = l ++ [t] /\ observe H D EH l = Ok (co_index (sy_coord s)) /\
+                 observe H D EH (l ++ [t]) = Ok (co_index co)).
+Proof. cbv zeta. apply (Inv_recover_truncated H D EH), state_after_Inv. Qed.
+
+Lemma root_rebuilt_run H ops :
+  let EH := empty_table H 256 256 in
+  let idx := co_index (sy_coord (state_after H 256 EH ops)) in
+  root_digest EH idx = spec_root H 256 (ix_entries idx).
+Proof. cbv zeta. apply Inv_root; [reflexivity|reflexivity|apply state_after_Inv]. Qed.
